@@ -37,19 +37,24 @@ def bind_prefixes(ctx):
     rs = bindcommon.gen(ctx, plan)
     dumps = ",".join(r["dump"] for r in rs)
     out = {}
-    for env in (None, "VERIF_PLACE=guard", "VERIF_PLACE=adv"):
-        tag = (env or "base").replace("VERIF_PLACE=", "")
-        sfile = os.path.join(ctx.work, "bindpfx-%s.json" % tag)
-        dfile = sfile[:-5] + ".dg"
-        args = ["bind", "-prefixes", "-dump", dumps, "-out", sfile, "-digests", dfile, "-seed", ctx.seed, "-stride", stride]
-        if env:
-            args += ["-env", env]
-        vf.vh(ctx, args, timeout=7200)
-        s = json.load(open(sfile))
-        s["digests"], s["env"], s["dumps"] = dfile, env, dumps
-        s["tlc"] = {"distinct": sum(r["distinct"] for r in rs), "generated": sum(r["generated"] for r in rs)}
-        s["fam"] = "bindprefix"
-        out[env or "base"] = s
+    # the default (JIT) decoder; the thorough tier also runs the alternative decoder
+    for dec in ([None] if ctx.quick else [None, "SONIC_USE_OPTDEC=1"]):
+        g = {}
+        for place in (None, "VERIF_PLACE=guard", "VERIF_PLACE=adv"):
+            env = ",".join(x for x in (dec, place) if x)
+            tag = ("optdec-" if dec else "") + (place or "base").replace("VERIF_PLACE=", "")
+            sfile = os.path.join(ctx.work, "bindpfx-%s.json" % tag)
+            dfile = sfile[:-5] + ".dg"
+            args = ["bind", "-prefixes", "-dump", dumps, "-out", sfile, "-digests", dfile, "-seed", ctx.seed, "-stride", stride]
+            if env:
+                args += ["-env", env]
+            vf.vh(ctx, args, timeout=7200)
+            s = json.load(open(sfile))
+            s["digests"], s["env"], s["dumps"], s["dec"] = dfile, env, dumps, dec
+            s["tlc"] = {"distinct": sum(r["distinct"] for r in rs), "generated": sum(r["generated"] for r in rs)}
+            s["fam"] = "bindprefix"
+            g[place or "base"] = s
+        out["bindprefix" + ("/optdec" if dec else "")] = g
     out["_dumps"] = [r["dump"] for r in rs]
     return out
 
@@ -77,8 +82,9 @@ def compare_prefixes(ctx, base, other, env, known):
         for e in (None, env):
             dfile = os.path.join(ctx.work, "pfx-detail-%s.ndjson" % ("env" if e else "base"))
             args = ["bind", "-prefixes", "-dump", base["dumps"], "-out", os.path.join(ctx.work, "pfx-x.json"), "-only", only, "-detail", dfile, "-seed", ctx.seed]
-            if e:
-                args += ["-env", e]
+            full = ",".join(x for x in (base.get("dec"), e) if x)
+            if full:
+                args += ["-env", full]
             vf.vh(ctx, args, timeout=3600)
             det[e] = {int(r["sig"]): r for r in map(json.loads, open(dfile))}
         shown = {}
@@ -123,7 +129,7 @@ def check(ctx):
         groups.setdefault("str/" + s["fam"], {})[s.get("env") or "base"] = s
     bp = bind_prefixes(ctx)
     bp_dumps = bp.pop("_dumps")
-    groups["bindprefix"] = bp
+    groups.update(bp)
     for name, g in groups.items():
         base = g["base"]
         states += base["tlc"]["distinct"]
@@ -152,7 +158,7 @@ def check(ctx):
                     continue        # disagreements with the specification's verdict are C02 / C20's business
                 rec = dict(b)
                 rec["env"], rec["universe"] = env, name
-                if name == "bindprefix":
+                if name.startswith("bindprefix"):
                     rec["sig"] = {k: "yes" for k, v in (b.get("feat") or {}).items() if v}
                     rec["api"] = "Unmarshal into " + str(b.get("type"))
                 fid = vf.match_known(known, rec)
@@ -162,7 +168,7 @@ def check(ctx):
                     vf.violation(ctx, "%s touched memory outside its input (%s placement): %s" % (rec.get("api"), env, b.get("text")), rec)
             if env == "base":
                 continue
-            if name == "bindprefix":
+            if name.startswith("bindprefix"):
                 n, d = compare_prefixes(ctx, base, s, env, known)
                 total += n
                 different += d
